@@ -1845,9 +1845,13 @@ def run(ctx: Ctx):
                     "hyphenated word across the wrap column, words longer than a line, empty, 1-7 lines), metadata with "
                     "wrapped help texts / empty / valueless entries, 15 % with an ingredient outside the well-formed class; "
                     "WfText, as_str, write+read at three widths out of 36/45/60/80/200/w+1/w-1 (text:* counts say what the "
-                    "written files contained); hand-written corner files of the ConfigParser subset (model against code "
-                    "only); (c) accessor / replace cases on grammar values, variables with empty / 0 / False values, with "
-                    "and without default; (d) variables along the fallback chain: three configurations main -> fb -> fb2 with "
+                    "written files contained); hand-written corner files of the ConfigParser subset incl. DEFAULT / __replace__ / __vars__ (model against code "
+                    "only); (c) accessor / replace cases on grammar values, variables with empty / 0 / False values, with and without default, and "
+                    "typed accessors with arguments (op A): as_list / as_tuple / as_dict with 16 character-class patterns (and 5 outside "
+                    "the modelled syntax), maxsplit 0/1/2/5 and the defaults; float on the float() grammar (underscores, exponents, "
+                    "inf/nan, blanks); date / datetime on ISO, non-padded, blank-day and invalid texts; path with HOME variants; as_enum "
+                    "on every registered enumeration with members, aliases and wrong names; "
+                    "(d) variables along the fallback chain: three configurations main -> fb -> fb2 with "
                     "their own values for shared variable names, entries with {var} references at every depth, cfg.get / "
                     "cfg[section][key] for own / fallback / fallback-of-fallback / default / override answers looked at through "
                     ".str, .source, the variable dictionary held, .replaced, .replace(default, **vars) and the typed accessors "
